@@ -19,7 +19,10 @@ import tempfile
 
 from harness import common, gen, models
 
-THEOREMS = []   # filled in when coq/Properties/C20.v exists (see bottom)
+try:
+    from harness.c20_theorems import THEOREMS
+except ImportError:
+    THEOREMS = []
 
 NORM_FLAGS = ['--canonicalize-roles', '--reify-edges', '--dereify-edges', '--reify-attributes', '--indicate-branches']
 REARRANGE = ['canonical', 'alphanumeric', 'inverted-last', 'attributes-first', 'canonical,attributes-first',
@@ -281,6 +284,19 @@ def has_inverted_reifiable_attribute(streams, model):
     return False
 
 
+def normalised_inverse_reifiable(first_output, model):
+    """F32: the first pass wrote an edge with the INVERSE spelling of a role whose normalisation is reifiable
+    (AMR: ':domain-of' normalises to ':mod'), because the layout had to invert a non-reifiable ':domain' edge."""
+    import penman
+    for t in penman.iterparse(first_output):
+        for _, (role, _tgt) in t.walk():
+            r = role.partition('~')[0]
+            n = model.normalizations.get(r)
+            if n is not None and model.is_role_inverted(r) and model.is_role_reifiable(n):
+                return True
+    return False
+
+
 def one_case(args):
     """Worker: returns a list of (kind, key, what, case) findings for one generated case."""
     idx, seed, tier = args
@@ -342,6 +358,8 @@ def one_case(args):
                 key = 'idempotence'
                 if opts.get('--reify-attributes') and opts.get('--reify-edges') and has_inverted_reifiable_attribute(streams, model):
                     key = 'F30-inverted-reifiable-attribute'
+                elif opts.get('--canonicalize-roles') and opts.get('--reify-edges') and normalised_inverse_reifiable(out, model):
+                    key = 'F32-normalised-inverse-role-reified'
                 findings.append(('fail', key, 'feeding the output back with the same options changes it', dict(case, first=out, second=out2)))
         # (c) content preserved without normalisation options
         no_norm = not any(opts.get(k) for k in NORM_FLAGS + ['reconfigure', 'rearrange', 'make_variables', 'triples', 'check'])
